@@ -3,6 +3,7 @@ package checks
 import (
 	"context"
 	"fmt"
+	"strings"
 	"sync"
 	"testing"
 	"time"
@@ -27,6 +28,9 @@ type CaseC17 struct {
 	Post      bool  `json:"post,omitempty"`
 	PostPrio  []int `json:"post_prio,omitempty"`
 	PostFirst bool  `json:"post_first,omitempty"`
+	// PersistFault > 0: the k-th write of the new head to storage during the first burst fails with an I/O error
+	// (that call returns an error and is not counted as acknowledged); the second burst runs without fault
+	PersistFault int `json:"persist_fault,omitempty"`
 }
 
 func permutations(n int) [][]int {
@@ -68,7 +72,10 @@ func genC17(rt *rapid.T) CaseC17 {
 		Waves: rapid.IntRange(1, 2).Draw(rt, "waves"),
 	}
 	c.Prio = rapid.Permutation(seq(c.K)).Draw(rt, "prio")
-	if rapid.Bool().Draw(rt, "post") {
+	if rapid.IntRange(0, 3).Draw(rt, "persistFault") == 0 {
+		c.PersistFault = rapid.IntRange(1, c.K).Draw(rt, "faultAt")
+		c.Waves = 2
+	} else if rapid.Bool().Draw(rt, "post") {
 		c.Post = true
 		c.PostPrio = rapid.Permutation(seq(c.K)).Draw(rt, "postprio")
 		c.PostFirst = rapid.Bool().Draw(rt, "postfirst")
@@ -173,6 +180,7 @@ func execC17(c CaseC17) *Outcome {
 		err  error
 	}
 	var acked []string
+	failedCalls := 0
 	lastPersistedByHook := ""
 	nonTrivial := false
 	infeasible := false
@@ -181,6 +189,9 @@ func execC17(c CaseC17) *Outcome {
 		mu.Lock()
 		parked = nil
 		mu.Unlock()
+		if wave == 0 && c.PersistFault > 0 {
+			cl.W.Peers[0].Disk.FailPutsAfter("_localHeads", c.PersistFault-1, 1)
+		}
 		results := make(chan result, c.K)
 		for g := 0; g < c.K; g++ {
 			tag := cnt
@@ -333,6 +344,10 @@ func execC17(c CaseC17) *Outcome {
 			seen[h] = true
 		}
 		for _, r := range got {
+			if r.err != nil && c.PersistFault > 0 && wave == 0 && failedCalls == 0 && strings.Contains(r.err.Error(), "simulated write failure") {
+				failedCalls++ // the call whose head write failed reports the error: it is not an acknowledged write
+				continue
+			}
 			if r.err != nil {
 				return fail("a concurrent write failed: %v", r.err)
 			}
@@ -353,8 +368,8 @@ func execC17(c CaseC17) *Outcome {
 			return fail("acknowledged write %s is not in the store after the writers finished", short(h))
 		}
 	}
-	if len(have) != len(acked)+c.Pre {
-		return fail("store holds %d entries, %d writes were acknowledged", len(have), len(acked)+c.Pre)
+	if len(have) < len(acked)+c.Pre || len(have) > len(acked)+c.Pre+failedCalls {
+		return fail("store holds %d entries, %d writes were acknowledged (%d calls reported a storage error)", len(have), len(acked)+c.Pre, failedCalls)
 	}
 	vals := world.Hashes(s)
 	if len(vals) != len(have) {
@@ -402,8 +417,8 @@ func execC17(c CaseC17) *Outcome {
 			return fail("acknowledged write %s is missing after restart and Load(-1) (%d of %d entries recovered; release order of the %d concurrent writers by priority %v)", short(h), len(have1), len(have), c.K, c.Prio)
 		}
 	}
-	if len(world.Hashes(s1)) != len(have) {
-		return fail("after restart Values() lists %d entries, expected %d", len(world.Hashes(s1)), len(have))
+	if n1 := len(world.Hashes(s1)); n1 < len(acked)+c.Pre || n1 > len(have) {
+		return fail("after restart Values() lists %d entries, expected %d", n1, len(have))
 	}
 	if out := sameView(s1, "after restart and Load(-1)"); out != nil {
 		return out
@@ -414,6 +429,9 @@ func execC17(c CaseC17) *Outcome {
 	}
 	if infeasible {
 		o.Labels = append(o.Labels, "schedule-partly-infeasible(lock)")
+	}
+	if failedCalls > 0 {
+		o.Labels = append(o.Labels, "head-write-failed-once")
 	}
 	if postHeld {
 		o.Labels = append(o.Labels, "writer-held-after-persist-while-another-wrote")
